@@ -388,6 +388,8 @@ def t_bytes(I, args, kw, node):
                 raise _sx().SymRaise(ValueError, "bytes() range")
         vals = [I.numeric(x) for x in v]
         for x in vals:
+            if isinstance(x, z3.ExprRef) and x.get_id() in I.ctx.known_bytes:
+                continue
             if not I.ctx.branch(L.And(L.le(0, x), L.lt(x, 256))):
                 raise _sx().SymRaise(ValueError, "bytes must be in range(0, 256)")
         vv = list(vals)
